@@ -20,6 +20,15 @@ type WrapCase struct {
 	Flags []int        `json:"flags"`
 	Tail  int          `json:"tail"`
 	Nil   []int        `json:"nilCalls,omitempty"` // indices of calls made with a nil block
+	// Pre: the wrapped parser is first used on another reader for some
+	// calls and then Reset to the reader of the case (C13).
+	Pre *WrapPre `json:"pre,omitempty"`
+}
+
+// WrapPre is the prior use of a WrappedParser before WrappedParser.Reset.
+type WrapPre struct {
+	R     ReaderScript `json:"r"`
+	Calls int          `json:"calls"`
 }
 
 type wrapBlock struct {
@@ -88,7 +97,32 @@ func runWrap(c WrapCase, plain bool) (*wrapExec, error) {
 		sr = newScriptReader(c.R)
 		rd = sr
 	}
-	wp := lz.Wrap(rd, p)
+	var wp *lz.WrappedParser
+	if c.Pre == nil {
+		wp = lz.Wrap(rd, p)
+	} else {
+		wp = lz.Wrap(newScriptReader(c.Pre.R), p)
+		panicked := func() (pn bool) {
+			defer func() {
+				if r := recover(); r != nil {
+					pn = true
+					x.report("C16", "WrappedParser panicked during the prior use or in Reset: %v", r)
+				}
+			}()
+			var b lz.Block
+			for i := 0; i < c.Pre.Calls; i++ {
+				if _, err := wp.Parse(&b, 0); err != nil {
+					break
+				}
+			}
+			wp.Reset(rd)
+			return false
+		}()
+		if panicked {
+			x.dead = true
+			return x, nil
+		}
+	}
 	defer func() {
 		if sr != nil {
 			x.faultsWithData = sr.faultData
